@@ -28,9 +28,20 @@ func VerifC10Cancel() {
 	}
 	c := vNewClient(conn, v, proto.CompressionDisabled, compress.None, nil)
 	ctx := vNewCtx(verifIntRange("cancelgate", 0, verifParam("maxgate", 10)))
-	if verifChoice("deadline", 2) == 1 {
+	switch verifChoice("deadline", verifParam("deadlinekinds", 4)) {
+	case 1:
 		// a caller deadline far beyond the read timeout must not delay the reaction to a cancel
 		ctx.deadline, ctx.hasDL = time.Now().Add(time.Hour), true
+	case 2:
+		// the deadline itself ends the query: later than one read timeout ...
+		ctx.deadline, ctx.hasDL, ctx.expires = time.Now().Add(2500*time.Millisecond), true, true
+	case 3:
+		// ... or sooner
+		ctx.deadline, ctx.hasDL, ctx.expires = time.Now().Add(400*time.Millisecond), true, true
+	}
+	if verifChoice("cancel-write", 2) == 1 {
+		// the Cancel packet is best effort: when it cannot be written the connection is closed all the same
+		conn.brokenOnce = ctx
 	}
 	err := c.Do(ctx, s.q)
 	if !ctx.cancelled {
@@ -44,7 +55,15 @@ func VerifC10Cancel() {
 		return
 	}
 	verifNote("cancelled")
-	verifAssert(errors.Is(err, context.Canceled), "error-matches-context")
+	if conn.failedWrites == 0 {
+		verifAssert(errors.Is(err, ctx.err), "error-matches-context")
+	} else {
+		// two independent faults (the caller gave up, the connection broke): either may be reported
+		verifNote("cancelled-on-a-broken-connection")
+	}
+	if ctx.expires {
+		verifNote("deadline-exceeded")
+	}
 	verifAssert(conn.closed > 0, "connection-closed")
 	verifAssert(c.IsClosed(), "client-closed")
 	// what was written: a prefix of the well-formed stream, then at most one Cancel packet
